@@ -64,6 +64,11 @@ func c16Check(c c16Case) error {
 	if c.Split < 0 || c.Split > len(c.Ops) {
 		return fmt.Errorf("malformed case")
 	}
+	if c.Short == 0 {
+		if err := c16DryRun(c); err != nil {
+			return err
+		}
+	}
 	head, tail := c.Ops[:c.Split], c.Ops[c.Split:]
 	total := needOf(c.Ops) + needOf(c.Coda) + 16
 	// direct emitter
@@ -199,6 +204,43 @@ func c16Check(c c16Case) error {
 	return nil
 }
 
+// c16DryRun: the same split with emitters that have no target buffer (measuring mode): after Append the
+// program counter, flags and labels must equal those of a direct dry-run emitter, and keep doing so.
+func c16DryRun(c c16Case) error {
+	d := asm.NewEmitter(nil, false)
+	for _, o := range c.Ops {
+		asmcat.ApplyReal(d, o)
+	}
+	a := asm.NewEmitter(nil, false)
+	for _, o := range c.Ops[:c.Split] {
+		asmcat.ApplyReal(a, o)
+	}
+	cl := a.Clone(nil)
+	for _, o := range c.Ops[c.Split:] {
+		asmcat.ApplyReal(cl, o)
+	}
+	var pan interface{}
+	func() {
+		defer func() { pan = recover() }()
+		a.Append(cl)
+	}()
+	if pan != nil {
+		return fmt.Errorf("dry-run emitters: Append panicked: %v", pan)
+	}
+	for i, o := range c.Coda {
+		r1, p1 := asmcat.ApplyReal(d, o)
+		r2, p2 := asmcat.ApplyReal(a, o)
+		if (p1 == nil) != (p2 == nil) || r1 != r2 {
+			return fmt.Errorf("dry-run emitters: after Append, call %d %v behaves differently: direct (%d, %v), clone+append (%d, %v)", i, o, r1, p1, r2, p2)
+		}
+	}
+	s1, s2 := snapOf(d), snapOf(a)
+	if df := s1.diff(s2, true); df != "" {
+		return fmt.Errorf("dry-run emitters (no target buffer): after Clone+Append the emitter differs from a direct one (split at %d of %d): %s", c.Split, len(c.Ops), df)
+	}
+	return nil
+}
+
 func labelPoolName(i int) string { return allLabelNames[i] }
 
 func init() {
@@ -277,10 +319,10 @@ func TestC16(t *testing.T) {
 				if c.Split == 0 {
 					ev.Class("split-at-0")
 				}
-				if c.Split > 0 && c.Ops[0].Kind == "setbase" {
+				if bi := asmcat.BaseIndex(c.Ops); bi >= 0 && c.Split > bi {
 					ev.Class("base-set-before-split")
 				}
-				if c.Split == 0 && len(c.Ops) > 0 && c.Ops[0].Kind == "setbase" {
+				if bi := asmcat.BaseIndex(c.Ops); bi >= 0 && c.Split <= bi {
 					ev.Class("base-set-in-the-clone")
 				}
 				raw, _ := json.Marshal(c)
